@@ -1,0 +1,217 @@
+//go:build verif
+
+package tls
+
+import (
+	"errors"
+	"sync"
+)
+
+// Verification hooks, compiled only with the build tag "verif".  A VerifPlan is
+// attached to one connection; without a plan every hook is a no-op.
+
+type verifConnState struct {
+	plan *VerifPlan
+}
+
+// VerifPlan describes what the hooked connection should do differently and collects
+// what the hooks observed.  Fields are read-only after VerifAttach.
+type VerifPlan struct {
+	// RewriteOut is called for every outgoing handshake message after it was
+	// marshalled and before it enters the transcript and the record layer.  It may
+	// return replacement bytes (nil keeps the message).
+	RewriteOut func(isClient bool, data []byte) []byte
+
+	// LegacyVersionNegotiation makes the server ignore supported_versions and
+	// negotiate from legacy_version only, like a pre-TLS-1.3 server.
+	LegacyVersionNegotiation bool
+	// Canary: 0 default behaviour, 1 force the RFC 8446 downgrade sentinel for the
+	// negotiated version (<= 1.2), 2 suppress it.
+	Canary int
+	// ForceSuite12 / ForceSuite13 make the server really use this suite.
+	ForceSuite12 uint16
+	ForceSuite13 uint16
+	// ForceGroup makes the TLS 1.3 server select this group (HRR if no share).
+	ForceGroup CurveID
+	// ClearCookie makes the server forget the cookie echoed in the second
+	// ClientHello before it compares the two hellos (the stock server never sends
+	// a cookie; the harness adds one through RewriteOut).
+	ClearCookie bool
+	// ReadClientEE makes the TLS 1.3 server read a client EncryptedExtensions
+	// message into the transcript before the client certificate.
+	ReadClientEE bool
+	// Yield is called at named points to widen interleavings.
+	Yield func(point string)
+
+	mu  sync.Mutex
+	obs VerifObs
+}
+
+// VerifObs is what the hooks observed.
+type VerifObs struct {
+	SecondHelloSeen bool
+	EchoedCookie    []byte
+	ClientEE        []byte // raw client EncryptedExtensions message
+	ClientEESeen    bool
+	Points          []string
+}
+
+func (p *VerifPlan) Obs() VerifObs {
+	p.mu.Lock()
+	defer p.mu.Unlock()
+	o := p.obs
+	o.Points = append([]string(nil), p.obs.Points...)
+	return o
+}
+
+// VerifAttach attaches a plan to a connection (before its handshake starts).
+func VerifAttach(c *Conn, p *VerifPlan) { c.verif.plan = p }
+
+func (c *Conn) verifRewriteOut(msg handshakeMessage, data []byte) []byte {
+	p := c.verif.plan
+	if p == nil || p.RewriteOut == nil {
+		return data
+	}
+	if out := p.RewriteOut(c.isClient, append([]byte(nil), data...)); out != nil {
+		return out
+	}
+	return data
+}
+
+func (c *Conn) verifClientVersions(ch *clientHelloMsg, v []uint16) []uint16 {
+	p := c.verif.plan
+	if p == nil || !p.LegacyVersionNegotiation {
+		return v
+	}
+	vers := ch.vers
+	if vers > VersionTLS12 {
+		vers = VersionTLS12
+	}
+	return supportedVersionsFromMax(vers)
+}
+
+func (c *Conn) verifCanary(random []byte) {
+	p := c.verif.plan
+	if p == nil || p.Canary == 0 || len(random) != 32 {
+		return
+	}
+	switch p.Canary {
+	case 1:
+		if c.vers == VersionTLS12 {
+			copy(random[24:], downgradeCanaryTLS12)
+		} else {
+			copy(random[24:], downgradeCanaryTLS11)
+		}
+	case 2:
+		// overwrite a possible sentinel with bytes that are not one
+		copy(random[24:], []byte{0x11, 0x22, 0x33, 0x44, 0x55, 0x66, 0x77, 0x88})
+	}
+}
+
+func (c *Conn) verifPickSuite12(s *cipherSuite) *cipherSuite {
+	p := c.verif.plan
+	if p == nil || p.ForceSuite12 == 0 {
+		return s
+	}
+	for _, cs := range utlsSupportedCipherSuites {
+		if cs.id == p.ForceSuite12 {
+			return cs
+		}
+	}
+	return s
+}
+
+func (c *Conn) verifPickSuite13(s *cipherSuiteTLS13) *cipherSuiteTLS13 {
+	p := c.verif.plan
+	if p == nil || p.ForceSuite13 == 0 {
+		return s
+	}
+	if cs := cipherSuiteTLS13ByID(p.ForceSuite13); cs != nil {
+		return cs
+	}
+	return s
+}
+
+func (c *Conn) verifSelectGroup(g CurveID) CurveID {
+	p := c.verif.plan
+	if p == nil || p.ForceGroup == 0 {
+		return g
+	}
+	return p.ForceGroup
+}
+
+func (c *Conn) verifSecondHello(ch *clientHelloMsg) {
+	p := c.verif.plan
+	if p == nil {
+		return
+	}
+	p.mu.Lock()
+	p.obs.SecondHelloSeen = true
+	p.obs.EchoedCookie = append([]byte(nil), ch.cookie...)
+	p.mu.Unlock()
+	if p.ClearCookie {
+		ch.cookie = nil
+	}
+}
+
+func (c *Conn) verifReadClientEE(transcript transcriptHash) error {
+	p := c.verif.plan
+	if p == nil || !p.ReadClientEE {
+		return nil
+	}
+	msg, err := c.readHandshake(transcript)
+	if err != nil {
+		return err
+	}
+	ee, ok := msg.(*utlsClientEncryptedExtensionsMsg)
+	if !ok {
+		c.sendAlert(alertUnexpectedMessage)
+		return errors.New("verif: expected client EncryptedExtensions")
+	}
+	raw, _ := ee.marshal()
+	p.mu.Lock()
+	p.obs.ClientEESeen = true
+	p.obs.ClientEE = append([]byte(nil), raw...)
+	p.mu.Unlock()
+	return nil
+}
+
+func (c *Conn) verifYield(point string) {
+	p := c.verif.plan
+	if p == nil || p.Yield == nil {
+		return
+	}
+	p.mu.Lock()
+	if len(p.obs.Points) < 64 {
+		p.obs.Points = append(p.obs.Points, point)
+	}
+	p.mu.Unlock()
+	p.Yield(point)
+}
+
+// VerifSendKeyUpdate makes a TLS 1.3 connection send a KeyUpdate message (crypto/tls
+// offers no public API for this).
+func VerifSendKeyUpdate(c *Conn, requestUpdate bool) error {
+	if err := c.Handshake(); err != nil {
+		return err
+	}
+	if c.vers != VersionTLS13 {
+		return errors.New("verif: KeyUpdate needs TLS 1.3")
+	}
+	cipherSuite := cipherSuiteTLS13ByID(c.cipherSuite)
+	if cipherSuite == nil {
+		return errors.New("verif: no TLS 1.3 suite")
+	}
+	c.out.Lock()
+	defer c.out.Unlock()
+	msg := &keyUpdateMsg{updateRequested: requestUpdate}
+	b, err := msg.marshal()
+	if err != nil {
+		return err
+	}
+	if _, err := c.writeRecordLocked(recordTypeHandshake, b); err != nil {
+		return err
+	}
+	c.out.setTrafficSecret(cipherSuite, QUICEncryptionLevelInitial, cipherSuite.nextTrafficSecret(c.out.trafficSecret))
+	return nil
+}
